@@ -41,10 +41,11 @@ CONFIG = {
     'deciding': ['c06.meta', 'c06.hashseed'],
     'shards': {'quick': 16, 'thorough': 16},
     'hashseeds': {'quick': 4, 'thorough': 16},
-    'min_evals': {'quick': {'c06.meta': 4000, 'c06.hashseed': 250},
+    'min_evals': {'quick': {'c06.meta': 5000, 'c06.hashseed': 250},
                   'thorough': {'c06.meta': 60000, 'c06.hashseed': 4000}},
     'must_sig': ['tau:bijection', 'tau:containers', 'tau:atoms',
                  'tau:unreachable', 'tau:shuffle', 'tau:retype',
+                 'tau:distinct_objects',
                  'logic:CTL', 'logic:LTL', 'logic:CTLS'],
     'rule': ('cases = (structure, formula, logic) from a seeded list; each '
              'evaluated under every hash seed of the run (fresh interpreter '
@@ -126,15 +127,31 @@ def make_case(r, idx):
     return logic, NK(names, nk.succ, labels), t
 
 
-def build_K(nk, r=None, containers=0, order=None, extra=None):
+def fresh(s):
+    """An equal but distinct object (so that `is` and `==` differ)."""
+    if isinstance(s, str):
+        return ''.join(list(s))
+    if isinstance(s, tuple):
+        return tuple(fresh(x) for x in s)
+    if isinstance(s, frozenset):
+        return frozenset(fresh(x) for x in s)
+    if isinstance(s, int) and not isinstance(s, bool):
+        return int(str(s))
+    return s
+
+
+def build_K(nk, r=None, containers=0, order=None, extra=None,
+            fresh_objects=False):
     """Real Kripke from a neutral structure in a given presentation."""
     from pyModelChecking.kripke import Kripke
     n = nk.n
     idxs = list(range(n)) if order is None else list(order)
-    S = [nk.states[i] for i in idxs]
-    R = [(nk.states[i], nk.states[j]) for i in idxs for j in range(n)
+    fo = fresh if fresh_objects else (lambda x: x)
+    S = [fo(nk.states[i]) for i in idxs]
+    R = [(fo(nk.states[i]), fo(nk.states[j])) for i in idxs for j in range(n)
          if nk.succ[i] >> j & 1]
-    Litems = [(nk.states[i], nk.labels[i]) for i in idxs]
+    Litems = [(fo(nk.states[i]),
+               frozenset(fo(a) for a in nk.labels[i])) for i in idxs]
     if r is not None:
         r.shuffle(R)
         r.shuffle(Litems)
@@ -221,6 +238,13 @@ def transformations(r, logic, nk, t):
         Ls.append((s, frozenset(a for a in allatoms if r.random() < 0.5)))
     yield ('unreachable', nk, t, {nk.states[i]: i for i in range(n)},
            {'extra': {'S': new, 'R': R, 'L': Ls}, 'shuffle': True})
+    # 5b every occurrence of a state / atom name is an equal but distinct
+    # object (identity-based comparisons would break)
+    big = [s_ if not isinstance(s_, int) else 100000 + s_
+           for s_ in nk.states]
+    yield ('distinct_objects', NK(big, nk.succ, nk.labels), t,
+           {big[i]: i for i in range(n)}, {'fresh_objects': True,
+                                           'shuffle': True})
     # 6 bijection + retyped containers + shuffle together
     names2 = ['S%03d' % (perm[i] * 11) for i in range(n)]
     yield ('retype', NK(names2, nk.succ, nk.labels), t,
@@ -235,8 +259,10 @@ def meta(r, idx, logic, nk, t, base):
         try:
             K = build_K(tnk, r if opts.get('shuffle') else None,
                         opts.get('containers', 0), opts.get('order'),
-                        opts.get('extra'))
-            res = mc(logic, K, build(lang(logic), tt))
+                        opts.get('extra'), opts.get('fresh_objects', False))
+            ft = rename_atoms(tt, {a: fresh(a) for a in atoms_of(tt)}) \
+                if opts.get('fresh_objects') else tt
+            res = mc(logic, K, build(lang(logic), ft))
             out = sorted(back[s] for s in res if s in back)
             junk = [s for s in res if s not in back and
                     s not in (opts.get('extra') or {'S': []})['S']]
